@@ -997,7 +997,8 @@ def gen_scenario(r, idx):
     if kind == 'rebind':            # the defining module binds the class name of a string annotation / forward reference to another class
         # between two calls: every call means the class the name is bound to NOW (nothing learnt about the name in an earlier call -
         # on the function, on the annotation object or on a ForwardRef that typing shares between equal annotations - may be reused)
-        ann = r.choice(["List['P']", "Optional['P']", "Dict[str, 'P']", "'P'", "List['C1']", "Tuple['P', int]", "Dict[str, List['P']]"])
+        ann = r.choice(["List['P']", "Optional['P']", "Dict[str, 'P']", "'P'", "List['C1']", "Tuple['P', int]", "Dict[str, List['P']]",
+                        "List['Optional[P]']", "Dict[str, 'List[P]']", "Optional['Dict[str, C1]']"])      # (the last three: the reference is an expression)
         nm = 'C1' if 'C1' in ann else 'P'
         retann = r.choice([' -> None', ' -> None', f' -> {ann}'])
         def fn(n_, i, dec):
